@@ -29,10 +29,10 @@ def run(tier):
                            print_sink=lambda o: f.write(json.dumps(o) + "\n"))
     vlib.expect_model_ok(res, "Health.tla (accept until WouldBlock)")
     c.add_model("MC_Health/loop (NoStrandedConn, HcLive)", res)
-    for cfg in ("MC_Health_one.cfg", "MC_Health_bounded.cfg"):
+    for cfg in ("MC_Health_one.cfg", "MC_Health_bounded.cfg", "MC_Health_abort.cfg"):
         m = vlib.run_tlc("MC_Health", cfg, "C15/mc_health_selftest", workers=4, timeout=300, collect_prints=False)
         if m.violated != "NoStrandedConn":
-            raise vlib.ToolError("Health.tla self-test %s: a single or bounded accept per edge should strand connections" % cfg)
+            raise vlib.ToolError("Health.tla self-test %s: a single or bounded accept per edge, or a loop ended by a reset connection, should strand connections" % cfg)
     from checks import servercommon as sc
     sc.REASONS["C15"] = {"health_check_unanswered", "no_reply_to_valid", "panic", "wedged"}
     sc.server_stage(c, "health", "health", inp=sched)
